@@ -10,6 +10,31 @@ CHECKS = {
    technique='exhaustive enumeration of the full 41 472-point option product on the real compute_emissions, outcome classification + independent re-summation',
    text='Every one of the 41 472 documented option combinations is executed (quick: one synthetic trajectory; thorough: two) and classified as balanced inventory / named refusal / internal error; exhaustive over configurations, so the universal quantifier over configurations is decided outright for the trajectories used.',
    note='shipped sample performance model, engine entry and fuel; lattice trajectories only; numpy/pydantic trusted', ref='DESIGN.md §4 C11'),
+
+ 'C06': dict(cat='exploration', engine='BEX',
+   technique='bounded-exhaustive enumeration of table structures x row orders x node/interior/edge/outside queries, malformed tables and generated PTF files against a dict-of-nodes bilinear reference',
+   text='Every case of each declared sub-lattice (tables x row orders x queries, column layouts, malformed tables, generated PTF files) is executed on the real model code and compared with an independent scalar reference; exhaustive over the declared lattice, nothing claimed between lattice points.',
+   note='scipy/numpy/pandas trusted; lattice values only; one open known finding (PTF zero climb rate)', ref='DESIGN.md §4 C06'),
+ 'C07': dict(cat='model_checking', engine='HIST',
+   technique='explicit-state BFS over operation histories replayed on real TrajectoryStore objects, deduplicated by canonical state, vs a Python list model; plus undeduplicated enumeration',
+   text='All histories of create/add/read/iterate/sync/close/append/open/save with two cache sizes up to the depth bound are replayed on the real store; every step result and a full observation (len, every index, one past the end, iteration, reopen) is compared with a list model in every reached state.',
+   note='bounds: <=3 (thorough 4) trajectories, depth 7 (10); netCDF4/HDF5 and cachetools trusted; dedup key = model state + cache residency order', ref='DESIGN.md §4 C07'),
+ 'C08': dict(cat='model_checking', engine='HIST',
+   technique='explicit-state BFS over histories of identified stores (non-monotone id order, lookups before sync, append sessions, in-memory + save) vs a dict model',
+   text='Same explorer as C07 on identified trajectories with lookups interleaved; a second exploration on unidentified files checks that mixed identification is refused; merged-store lookups are covered by C09.',
+   note='bounds as C07; identifiers distinct', ref='DESIGN.md §4 C08'),
+ 'C09': dict(cat='exploration', engine='BEX',
+   technique='exhaustive enumeration of ordered size tuples x id-assignment x list/pattern (+associated stores, refusal matrix), merged directory compared item by item with Python list concatenation',
+   text='Every partition shape within the bound is merged with the real code and the opened merged store is compared with the concatenation model (len, every index, seams, one past the end, iteration, get for every id).',
+   note='<=3 stores of <=3 (thorough: 4x4) trajectories; 3-point trajectories', ref='DESIGN.md §4 C09'),
+ 'C10': dict(cat='fault_enumeration', engine='FAULT',
+   technique='enumeration of every intercepted file-system step of a merge x {fail-before, fail-after, torn metadata write} with recovery check; BFS over add sequences with every kind of rejected addition; refusal/retry matrix',
+   text='Every (step, mode) fault point of each merge scenario is injected on the real code and the on-disk result is checked for "nothing lost / never announced complete while incomplete / retry works"; every rejected-add kind at every position is explored by the history explorer against the list model.',
+   note='faults at the Python/file-system call boundary only; OS-level torn HDF5 writes out of scope', ref='DESIGN.md §4 C10'),
+ 'C15': dict(cat='exploration', engine='BEX',
+   technique='bounded-exhaustive enumeration of location-pair lattice x symbolic distances x step splits x overstep flag, multi-waypoint tracks, same-object sequences, all airport pairs; oracle = geodesic primitive + haversine cross-check',
+   text='All ordered pairs of the longitude/latitude lattice (antimeridian, polar, near-antipodal, equal lon/lat) with every distance of the symbolic set are evaluated on the real GroundTrack and Mission code and checked against the independent geodesic inverse.',
+   note='pyproj Geod is the trusted primitive (cross-checked by haversine to 0.6 %); lattice only', ref='DESIGN.md §4 C15'),
 }
 NOT_YET = {}
 
